@@ -387,6 +387,8 @@ func TestVerifC11E2E(t *testing.T) {
 			h.Op("rawpod %d %d %d %d %d %d %d %d %d %s %s %d %d %d %d %d %d %d %d %s", p.id, p.name, p.qos, kube, p.phase,
 				vB(p.hasSpec), p.spec, p.clsLabel, el, numTok(p.epKind, p.epNum), numTok(p.lpKind, p.lpNum), p.polTop,
 				0, 0 /* hasMetric / used: defined by the pod's `metric` line below */, p.reqNative, p.reqMid, p.reqBatch, p.batchCPU, len(p.polElems), vIntsI(p.polElems))
+			h.Op("%s", c11CtrsOp(p))
+			h.Tag(fmt.Sprintf("containers:%d", len(p.ctrs)))
 		}
 		for _, p := range pods {
 			h.Op("%s", c11SeriesOp(p, window))
@@ -540,6 +542,9 @@ func TestVerifC11E2E(t *testing.T) {
 				// priority paths ("4. filter no metrics"): a pod the agent has no usage sample of inside the query
 				// window is no victim.  (The BE path keeps such a pod as a candidate with usage 0: unchanged tree.)
 				h.Fail("C11:victim-without-metric", "e2e: pod %d evicted by %s although the metric cache holds no usage sample of it in the last %d ms (%s)", p.id, c11eFeatures[c.feat], window, p.mstate)
+			}
+			if c.feat == 0 && !p.hasMetric {
+				h.Tag("be-victim-without-sample") // allowed: the BE lists keep an unmeasured pod with usage 0
 			}
 			if okPods[p.id] {
 				h.Fail("C11:double-evict", "e2e: pod %d evicted again", p.id)
